@@ -30,6 +30,7 @@ import PyEcc.Sem.TransferRefineBn
 import PyEcc.Props.C08_FqpInv
 import PyEcc.Props.C17_Sub
 import PyEcc.Sem.Primes
+import PyEcc.Lemmas.CurveFactsAux
 import PyEcc.Sem.CurvePt
 import PyEcc.Model.Codec
 
@@ -227,6 +228,63 @@ theorem clearCofactorG2_refines (c : CanonT T) (r : Represents (mapT toQ T) P) :
   ⟨(Bls.good_multiply (B := K2) goodHom_F2 c _).1, opt_multiply_refines_F2 c r _⟩
 
 end G2
+
+/-! ### bn128 G2: `optimized_bn128` functions on canonical `Fqp .opt bnP bnMc2` triples -/
+
+/-- the model type of `optimized_bn128` G2 points -/
+abbrev BnG2Pt : Type := Fqp .opt bnP bnMc2 × Fqp .opt bnP bnMc2 × Fqp .opt bnP bnMc2
+
+/-- `optimized_bn128.G2` as a model triple -/
+def bnG2 : BnG2Pt := CurveSem.ptOpt2 .opt bnP bnMc2 optimized_bn128_G2
+
+section G2bn
+variable [DecidableEq K2bn] {T T₁ T₂ : BnG2Pt} {P Q : CurvePt (toQ bnB2 : K2bn)}
+
+/-- bn128: canonical triples stay canonical under the curve operations -/
+theorem canonT_ops_bn (c₁ : CanonT T₁) (c₂ : CanonT T₂) (n : ℕ) :
+    CanonT (OptBn.add T₁ T₂) ∧ CanonT (OptBn.double T₁) ∧ CanonT (OptBn.neg T₁)
+      ∧ CanonT (OptBn.multiply T₁ n) ∧ CanonT (((1 : Fqp .opt bnP bnMc2), (1 : Fqp .opt bnP bnMc2),
+          (0 : Fqp .opt bnP bnMc2)) : BnG2Pt) :=
+  ⟨(Bn.good_add (B := K2bn) goodHom_F2bn c₁ c₂).1, (Bn.good_double (B := K2bn) goodHom_F2bn c₁).1,
+   (Bn.good_neg (B := K2bn) goodHom_F2bn c₁).1, (Bn.good_multiply (B := K2bn) goodHom_F2bn c₁ n).1,
+   (Bn.good_Z (B := K2bn) (goodHom_F2bn (v := .opt))).1⟩
+
+/-- bn128 `is_on_curve(T, b2)` on a canonical model triple accepts exactly the triples whose value
+    represents a Mathlib point of `y² = x³ + b2` over `K2bn` -/
+theorem on_curve_iff_F2bn (c : CanonT T) :
+    OptBn.is_on_curve T bnB2 = true ↔ ∃ P : CurvePt (toQ bnB2 : K2bn), Represents (mapT toQ T) P :=
+  Bn.via_on_curve_iff goodHom_F2bn k2bn_field_ok.1 k2bn_field_ok.2.1 k2bn_field_ok.2.2.1
+    k2bn_field_ok.2.2.2 c
+
+/-- bn128 model `add` on canonical G2 triples computes Mathlib's point addition over `K2bn` -/
+theorem opt_add_refines_F2bn (c₁ : CanonT T₁) (c₂ : CanonT T₂) (r₁ : Represents (mapT toQ T₁) P)
+    (r₂ : Represents (mapT toQ T₂) Q) : Represents (mapT toQ (OptBn.add T₁ T₂)) (P + Q) :=
+  Bn.via_add_refines goodHom_F2bn k2bn_field_ok.1 c₁ c₂ r₁ r₂
+
+/-- bn128 model `double` on a canonical G2 triple computes `P + P` -/
+theorem opt_double_refines_F2bn (c : CanonT T) (r : Represents (mapT toQ T) P) :
+    Represents (mapT toQ (OptBn.double T)) (P + P) :=
+  Bn.via_double_refines goodHom_F2bn k2bn_field_ok.1 c r
+
+/-- bn128 model `neg` on a canonical G2 triple computes `-P` -/
+theorem opt_neg_refines_F2bn (c : CanonT T) (r : Represents (mapT toQ T) P) :
+    Represents (mapT toQ (OptBn.neg T)) (-P) := Bn.via_neg_refines goodHom_F2bn c r
+
+/-- bn128 model `multiply(T, n)` on a canonical G2 triple computes `n • P`, every `n` -/
+theorem opt_multiply_refines_F2bn (c : CanonT T) (r : Represents (mapT toQ T) P) (n : ℕ) :
+    Represents (mapT toQ (OptBn.multiply T n)) (n • P) :=
+  Bn.via_multiply_refines goodHom_F2bn k2bn_field_ok.1 c r n
+
+/-- bn128 model `eq` on canonical G2 triples decides equality of the represented points -/
+theorem opt_eq_refines_F2bn (c₁ : CanonT T₁) (c₂ : CanonT T₂) (r₁ : Represents (mapT toQ T₁) P)
+    (r₂ : Represents (mapT toQ T₂) Q) : OptBn.eq T₁ T₂ = true ↔ P = Q :=
+  Bn.via_eq_refines goodHom_F2bn c₁ c₂ r₁ r₂
+
+/-- bn128 model `is_inf` on a canonical G2 triple decides `P = 0` -/
+theorem opt_is_inf_refines_F2bn (c : CanonT T) (r : Represents (mapT toQ T) P) :
+    OptBn.is_inf T = true ↔ P = 0 := Bn.via_is_inf_refines goodHom_F2bn c r
+
+end G2bn
 
 /-- non-vacuity: the generator constant `G2` of the model is canonical and on the curve, hence its
     value represents a Mathlib point over `K2` -/
